@@ -16,6 +16,12 @@ type modTarget struct {
 	under Term   // all cells whose index is idx(under, *) (slice elements) — when elems
 	elems bool
 	field int // for boxed struct element fields
+	// valuesOf: every map that is (at the time the target is resolved) a VALUE of the outer map `under`:
+	// the cell index l is a target iff exists k: k in dom(under) and val(under)[k] == l
+	valuesOf bool
+	outerDom Term // (select MapDom$outer under)
+	outerVal Term // (select MapVal$outer under)
+	keySort  string
 }
 
 func (env *specEnv) resolveModifies(exprs []Expr) []modTarget {
@@ -52,6 +58,29 @@ func (env *specEnv) resolveModifies(exprs []Expr) []modTarget {
 				env.fail("modifies %s: not a slice or map", ex)
 			}
 			continue
+		}
+		// setsof(m): the contents of every map stored as a value in map m (e.g. the sets of a map[string]sets.Set)
+		if c, ok := ex.(*ECall); ok {
+			if id, ok := c.Fn.(*EIdent); ok && id.Name == "setsof" && len(c.Args) == 1 {
+				x := env.eval(c.Args[0])
+				ot, ok := x.typ.Underlying().(*types.Map)
+				if !ok {
+					env.fail("setsof(%s): not a map", c.Args[0])
+				}
+				it, ok := ot.Elem().Underlying().(*types.Map)
+				if !ok {
+					env.fail("setsof(%s): the values are not maps", c.Args[0])
+				}
+				m := env.rv(x)
+				od := sel(eng.get(env.st, eng.mapDomComp(ot)), m)
+				ov := sel(eng.get(env.st, eng.mapValComp(ot)), m)
+				ks := eng.vc.sortOf(ot.Key())
+				out = append(out, modTarget{comp: eng.mapDomComp(it), valuesOf: true, outerDom: od, outerVal: ov, keySort: ks})
+				if !isEmptyStruct(it.Elem()) {
+					out = append(out, modTarget{comp: eng.mapValComp(it), valuesOf: true, outerDom: od, outerVal: ov, keySort: ks})
+				}
+				continue
+			}
 		}
 		v := env.eval(ex)
 		if v.ref == nil {
@@ -95,7 +124,9 @@ func inTargets(ts []modTarget, comp string, l string) Term {
 		if t.comp != comp {
 			continue
 		}
-		if t.elems {
+		if t.valuesOf {
+			cs = append(cs, fmt.Sprintf("(exists ((k!vo %s)) (! (and (select %s k!vo) (= (select %s k!vo) %s)) :pattern ((select %s k!vo))))", t.keySort, t.outerDom, t.outerVal, l, t.outerVal))
+		} else if t.elems {
 			cs = append(cs, fmt.Sprintf("(and (is_idx %s) (= (idx_base %s) %s) (not (= %s nil)))", l, l, t.under, t.under))
 		} else {
 			cs = append(cs, fmt.Sprintf("(= %s %s)", l, t.ix))
@@ -128,7 +159,9 @@ func notInTargets(ts []modTarget, comp string, l string) Term {
 		if t.comp != comp {
 			continue
 		}
-		if t.elems {
+		if t.valuesOf {
+			cs = append(cs, fmt.Sprintf("(forall ((k!vo %s)) (! (not (and (select %s k!vo) (= (select %s k!vo) %s))) :pattern ((select %s k!vo))))", t.keySort, t.outerDom, t.outerVal, l, t.outerVal))
+		} else if t.elems {
 			cs = append(cs, fmt.Sprintf("(not (and (is_idx %s) (= (idx_base %s) %s) (not (= %s nil))))", l, l, t.under, t.under))
 		} else {
 			cs = append(cs, fmt.Sprintf("(not (= %s %s))", l, t.ix))
@@ -266,7 +299,7 @@ func (e *Engine) havocTargets(st *State, ts []modTarget) {
 		var nw Term
 		simple := true
 		for _, t := range ts {
-			if t.comp == c && t.elems {
+			if t.comp == c && (t.elems || t.valuesOf) {
 				simple = false
 			}
 		}
@@ -292,6 +325,25 @@ func (e *Engine) havocTargets(st *State, ts []modTarget) {
 		}
 		st.heap[c] = nw
 	}
+}
+
+// capturedAlloc: the variable cell of the enclosing function that is bound to free variable i of closure fn.
+func capturedAlloc(fn *ssa.Function, i int) *ssa.Alloc {
+	parent := fn.Parent()
+	if parent == nil {
+		return nil
+	}
+	for _, b := range parent.Blocks {
+		for _, ins := range b.Instrs {
+			if mc, ok := ins.(*ssa.MakeClosure); ok && mc.Fn == fn && i < len(mc.Bindings) {
+				if al, ok := mc.Bindings[i].(*ssa.Alloc); ok {
+					return al
+				}
+				return nil
+			}
+		}
+	}
+	return nil
 }
 
 func lastTwo(n string) string {
@@ -491,11 +543,25 @@ func VerifyFunction(p *Program, cs *Contracts, fn *ssa.Function, con *Contract) 
 		fr.params = append(fr.params, t)
 		e.wf(st, t, prm.Type())
 	}
-	for _, fv := range fn.FreeVars {
+	// captured variables: cells of the enclosing function. When that function keeps such a cell to itself
+	// (only its own loads/stores and closures handed to non-retaining helpers reach it), no callee of this
+	// closure can reach the cell either: it is treated like a local-only object, and distinct captured
+	// variables are distinct cells.
+	var private []Term
+	for i, fv := range fn.FreeVars {
 		t := vc.fresh("fv$"+fv.Name(), vc.sortOf(fv.Type()))
 		fr.vals[fv] = t
 		e.wf(st, t, fv.Type())
 		vc.assume(fmt.Sprintf("(not (= %s nil))", t))
+		if al := capturedAlloc(fn, i); al != nil && localOnly(al) {
+			vc.decl("fn:localroot", "(declare-fun localroot (Int) Bool)")
+			vc.assume(fmt.Sprintf("(and (is_obj %s) (localroot (rootid %s)))", t, t))
+			e.hasLocals = true
+			for _, o := range private {
+				vc.assume(fmt.Sprintf("(not (= (rootid %s) (rootid %s)))", t, o))
+			}
+			private = append(private, t)
+		}
 	}
 	// method receivers of pointer type are non-nil (calls on nil receivers are outside every property here)
 	if recv := fn.Signature.Recv(); recv != nil && len(fn.Params) > 0 {
